@@ -74,22 +74,28 @@ theorem step_inv (r : Repo) (e : Ev) (hI : Inv r) (hg : evGuard r e = true) : In
         · exact hI.packs_unique q hq q' hq' hqq
   | saveIndex i es =>
     simp only [evGuard, List.all_eq_true, List.contains_iff_mem] at hg
-    refine ⟨?_, ?_, hI.packs_unique⟩
-    · intro ie hie e he
-      simp only [apply, List.mem_cons] at hie
-      rcases hie with rfl | hie
-      · exact hg e he
-      · exact hI.entries_stored ie hie e he
-    · intro sn hsn b hb
-      exact indexed_mono (r := r) (fun _ h => List.mem_cons_of_mem _ h) (hI.snaps_indexed sn hsn b hb)
+    simp only [apply]
+    split
+    · exact hI
+    · refine ⟨?_, ?_, hI.packs_unique⟩
+      · intro ie hie e he
+        simp only [List.mem_cons] at hie
+        rcases hie with rfl | hie
+        · exact hg e he
+        · exact hI.entries_stored ie hie e he
+      · intro sn hsn b hb
+        exact indexed_mono (r := r) (fun _ h => List.mem_cons_of_mem _ h) (hI.snaps_indexed sn hsn b hb)
   | saveSnap s ns =>
     simp only [evGuard, List.all_eq_true] at hg
-    refine ⟨hI.entries_stored, ?_, hI.packs_unique⟩
-    intro sn hsn b hb
-    simp only [apply, List.mem_cons] at hsn
-    rcases hsn with rfl | hsn
-    · exact indexed_mono (r := r) (fun _ h => h) (hg b hb)
-    · exact indexed_mono (r := r) (fun _ h => h) (hI.snaps_indexed sn hsn b hb)
+    simp only [apply]
+    split
+    · exact hI
+    · refine ⟨hI.entries_stored, ?_, hI.packs_unique⟩
+      intro sn hsn b hb
+      simp only [List.mem_cons] at hsn
+      rcases hsn with rfl | hsn
+      · exact indexed_mono (r := r) (fun _ h => h) (hg b hb)
+      · exact indexed_mono (r := r) (fun _ h => h) (hI.snaps_indexed sn hsn b hb)
   | removePack p =>
     simp only [evGuard, List.all_eq_true, bne_iff_ne, ne_eq] at hg
     refine ⟨?_, ?_, ?_⟩
